@@ -63,10 +63,12 @@ pub enum Mode {
     #[value(skip)]
     Internal,
     CamelCaseName,
+    #[value(hide = true, alias = "dbg")]
+    Debug,
 }
 impl Mode {
     fn arb(rng: &mut Rng) -> Mode {
-        *rng.pick(&[Mode::Fast, Mode::Slow, Mode::VerySlow, Mode::CamelCaseName])
+        *rng.pick(&[Mode::Fast, Mode::Slow, Mode::VerySlow, Mode::CamelCaseName, Mode::Debug])
     }
     fn print(&self) -> String {
         self.to_possible_value().unwrap().get_name().to_string()
@@ -687,6 +689,11 @@ fn value_enum(st: &mut Stats) {
             st.count("value_enum.names");
             if !seen.insert(name.to_string()) {
                 st.violation("c15:value_enum:duplicate-name", format!("{:?} names two variants", name));
+            }
+            // the derived argument parser accepts the name too (hidden variants included)
+            match catch(|| B::try_parse_from(["b", "--req", "x", "--mode", name])) {
+                Ok(Ok(b)) if b.mode == Some(*v) => st.count("value_enum.parsed-through-argument"),
+                other => st.violation("c15:value_enum:name-rejected-by-argument-parser", format!("--mode {:?} gives {:?}, expected {:?}", name, other.map(|r| r.map(|b| b.mode).map_err(|e| e.kind())).map_err(|p| p.msg), v)),
             }
             for ic in [false, true] {
                 match Mode::from_str(name, ic) {
